@@ -28,8 +28,36 @@ class SymArray(np.ndarray):
     """object-dtype ndarray subclass; only `astype` needs overriding (numpy would call
     int()/float() on the elements), everything else is numpy's own machinery."""
 
+    symbolic_compare = False  # when True, comparisons return object arrays of SymBool (no fork)
+
     def __array_finalize__(self, obj):
         pass
+
+    def _cmp(self, other, ufunc):
+        if SymArray.symbolic_compare and self.dtype == object:
+            r = ufunc(np.asarray(self), other, dtype=object)
+            return r.view(SymArray) if isinstance(r, np.ndarray) else r
+        return ufunc(np.asarray(self), other)
+
+    def __eq__(self, o):
+        return self._cmp(o, np.equal)
+
+    def __ne__(self, o):
+        return self._cmp(o, np.not_equal)
+
+    def __lt__(self, o):
+        return self._cmp(o, np.less)
+
+    def __le__(self, o):
+        return self._cmp(o, np.less_equal)
+
+    def __gt__(self, o):
+        return self._cmp(o, np.greater)
+
+    def __ge__(self, o):
+        return self._cmp(o, np.greater_equal)
+
+    __hash__ = None
 
     def astype(self, dtype, *a, **k):
         if self.dtype != object:
